@@ -94,6 +94,134 @@ func verifCanary(label string, cond bool) {}
 //@           off(result) == off(b.buf) + old(b.pos) + 4 && b.pos == old(b.pos) + 4 + len(result)
 //@   ensures [C02:error-nothing] b.err != nil ==> len(result) == 0
 
+// The remaining scalar readers: same shape, stated once each (width k).
+//@ func (*Buffer).ReadBool
+//@   props C02
+//@   requires bufInv(b)
+//@   assigns b.pos, b.err
+//@   ensures [C02:inv] bufInv(b) && sameslice(b.buf, old(b.buf)) && b.pos >= old(b.pos) && b.pos - old(b.pos) <= 1
+//@   ensures [C02:sticky] old(b.err) != nil ==> b.pos == old(b.pos) && b.err == old(b.err)
+
+//@ func (*Buffer).ReadInt8
+//@   props C02
+//@   requires bufInv(b)
+//@   assigns b.pos, b.err
+//@   ensures [C02:inv] bufInv(b) && sameslice(b.buf, old(b.buf)) && b.pos >= old(b.pos) && b.pos - old(b.pos) <= 1
+//@   ensures [C02:sticky] old(b.err) != nil ==> b.pos == old(b.pos) && b.err == old(b.err)
+
+//@ func (*Buffer).ReadInt16
+//@   props C02
+//@   requires bufInv(b)
+//@   assigns b.pos, b.err
+//@   ensures [C02:inv] bufInv(b) && sameslice(b.buf, old(b.buf)) && b.pos >= old(b.pos) && b.pos - old(b.pos) <= 2
+//@   ensures [C02:sticky] old(b.err) != nil ==> b.pos == old(b.pos) && b.err == old(b.err)
+
+//@ func (*Buffer).ReadInt64
+//@   props C02
+//@   requires bufInv(b)
+//@   assigns b.pos, b.err
+//@   ensures [C02:inv] bufInv(b) && sameslice(b.buf, old(b.buf)) && b.pos >= old(b.pos) && b.pos - old(b.pos) <= 8
+//@   ensures [C02:sticky] old(b.err) != nil ==> b.pos == old(b.pos) && b.err == old(b.err)
+
+//@ func (*Buffer).ReadFloat32
+//@   props C02
+//@   requires bufInv(b)
+//@   assigns b.pos, b.err
+//@   ensures [C02:inv] bufInv(b) && sameslice(b.buf, old(b.buf)) && b.pos >= old(b.pos) && b.pos - old(b.pos) <= 4
+//@   ensures [C02:sticky] old(b.err) != nil ==> b.pos == old(b.pos) && b.err == old(b.err)
+
+//@ func (*Buffer).ReadFloat64
+//@   props C02
+//@   requires bufInv(b)
+//@   assigns b.pos, b.err
+//@   ensures [C02:inv] bufInv(b) && sameslice(b.buf, old(b.buf)) && b.pos >= old(b.pos) && b.pos - old(b.pos) <= 8
+//@   ensures [C02:sticky] old(b.err) != nil ==> b.pos == old(b.pos) && b.err == old(b.err)
+
+//@ func (*Buffer).ReadTime
+//@   props C02
+//@   requires bufInv(b)
+//@   assigns b.pos, b.err
+//@   ensures [C02:inv] bufInv(b) && sameslice(b.buf, old(b.buf)) && b.pos >= old(b.pos) && b.pos - old(b.pos) <= 8
+//@   ensures [C02:sticky] old(b.err) != nil ==> b.pos == old(b.pos) && b.err == old(b.err)
+
+//@ func (*Buffer).ReadString
+//@   props C02
+//@   requires bufInv(b)
+//@   assigns b.pos, b.err
+//@   ensures [C02:inv] bufInv(b) && sameslice(b.buf, old(b.buf)) && b.pos >= old(b.pos)
+//@   ensures [C02:sticky] old(b.err) != nil ==> b.pos == old(b.pos) && b.err == old(b.err)
+//@   ensures [C02:inside] len(result) <= len(b.buf) - old(b.pos)
+
+// Decoders (the BinaryDecoder interface and the reflection-driven ua.Decode) consume a prefix of
+// their input: on success the count they report lies inside the input. They write only the object
+// they decode into, objects allocated after it and memory they allocate themselves (`since`); never a
+// Buffer. Each hand-written Decode method under contract below proves the first part; ua.Decode is
+// reflection-driven and assumed.
+//@ func BinaryDecoder.Decode
+//@   props C02
+//@   assumed
+//@   params d data
+//@   assigns since(d) but Buffer
+//@   ensures err == nil ==> 0 <= result0 && result0 <= len(data)
+
+//@ func Decode
+//@   props C02
+//@   assumed
+//@   assigns since(v) but Buffer
+//@   ensures err == nil ==> 0 <= result0 && result0 <= len(b)
+
+// ReadStruct hands the unread part of the buffer to the decoder of r and advances by what it consumed.
+//@ func (*Buffer).ReadStruct
+//@   props C02
+//@   requires bufInv(b)
+//@   assigns b.pos, b.err, since(r) but Buffer
+//@   ensures [C02:inv] bufInv(b) && sameslice(b.buf, old(b.buf)) && b.pos >= old(b.pos)
+//@   ensures [C02:sticky] old(b.err) != nil ==> b.pos == old(b.pos) && b.err == old(b.err)
+
+// ---------------------------------------------------------------------------
+// C02: Variant.Decode. No panic for any input (negative array lengths, dimension products that
+// overflow, short input), every loop terminates, and on success the reported count lies inside the
+// input. decodeValue reads one scalar or one nested structure through the Buffer.
+// ---------------------------------------------------------------------------
+
+//@ func (*Variant).decodeValue
+//@   props C02
+//@   requires m != nil && bufInv(buf)
+//@   assigns buf.pos, buf.err
+//@   ensures [C02:inv] bufInv(buf) && sameslice(buf.buf, old(buf.buf)) && buf.pos >= old(buf.pos)
+//@   ensures [C02:sticky] old(buf.err) != nil ==> buf.pos == old(buf.pos) && buf.err == old(buf.err)
+
+// split reshapes the flat element list. Its termination and bounds rest on "the product of dims equals
+// j-i" (step = (j-i)/dims[level] must be positive and divide evenly), a non-linear fact that 64-bit
+// vector arithmetic does not decide (see DESIGN.md): split is NOT verified. The contract is assumed; the
+// call in Decode proves the part that is expressible: at least two dimensions, all positive, the
+// whole value range, and a non-empty value list (the branch for an empty list loops dims[level] times
+// per level with no relation to the input).
+//@ func split
+//@   props C02
+//@   assumed
+//@   requires [dims] level == 0 && len(dims) >= 2 && (forall k int :: 0 <= k && k < len(dims) ==> dims[k] >= 1)
+//@   requires [range] i == 0 && j == rvLen(vals) && j >= 1
+//@   assigns nothing
+
+//@ func (*Variant).Decode
+//@   props C02
+//@   nooverflow
+//@   requires m != nil
+//@   requires [zero-target] m.arrayDimensionsLength == 0
+//@   maxalloc [C02:alloc] len(b) + 65535
+//@   assigns m.mask, m.value, m.arrayLength, m.arrayDimensionsLength, m.arrayDimensions
+//@   ensures [C02:consumed] err == nil ==> 0 <= result0 && result0 <= len(b)
+//@   loop 0 invariant 0 <= i && i <= n && rvLen(vals) == n && bufInv(buf)
+//@   loop 0 decreases n - i
+//@   loop 1 invariant 0 <= i && i <= int(m.arrayDimensionsLength) && len(m.arrayDimensions) == int(m.arrayDimensionsLength)
+//@   loop 1 invariant bufInv(buf) && fresh(m.arrayDimensions)
+//@   loop 1 invariant forall k int :: 0 <= k && k < i ==> m.arrayDimensions[k] >= 1
+//@   loop 1 decreases int(m.arrayDimensionsLength) - i
+//@   loop 2 invariant 1 <= count && count <= 65535
+//@   loop 3 invariant len(dims) == len(m.arrayDimensions) && fresh(dims)
+//@   loop 3 invariant forall k int :: 0 <= k && k <= rangeindex ==> dims[k] >= 1
+
 // ---------------------------------------------------------------------------
 // NodeID identity as seen by callers (C31, C33): the textual form is an uninterpreted function of the
 // NodeID object (NodeIDs are not mutated by the functions under contract); Equal compares it.
